@@ -483,9 +483,12 @@ def evaluate__ceiling_and_floor_functions(self: XPathFunction, context: ta.Conte
 
         assert isinstance(arg, (int, float, decimal.Decimal))
         if self.symbol == 'floor':
-            return type(arg)(math.floor(arg))
+            result = type(arg)(math.floor(arg))
         else:
-            return type(arg)(math.ceil(arg))
+            result = type(arg)(math.ceil(arg))
+        if not result and isinstance(arg, float):
+            return type(arg)(math.copysign(0.0, arg))  # keep the sign of zero
+        return result
     except TypeError as err:
         if isinstance(context, XPathSchemaContext):
             return []
